@@ -26,7 +26,7 @@ ASSUME = ["schedules are those loopback TCP produces, varied by: eager / gated /
           "(ChaCha20.tla) for a seeded sample bounded by a block budget; larger frames are decrypted by the harness with the repo's ChaCha20 (bound to RFC 8439 by C09)",
           "'not buffered' is observed as: no single allocation above 1 MiB + 4 KiB on a SessionManager thread after an oversized announcement (operator new is "
           "interposed in the driver; requests above 64 MiB are refused) and the session closing whether or not the announced body is sent",
-          "'session ends' is observed as is_connected() == false on the real side and EOF/RST on the harness' socket within VERIF_TRANSPORT_TIMEOUT_MS (20 s)",
+          "'session ends' is observed as is_connected() == false on the real side and EOF/RST on the harness' socket within VERIF_TRANSPORT_TIMEOUT_MS (10 s; after a first time-out in a driver run the remaining waits of that run use 0.3 s)",
           "std::random_device is interposed (deterministic stream, seeded per behaviour), so nonce freshness is checked on the real nonce derivation, not on the OS entropy source"]
 
 
@@ -317,10 +317,12 @@ def bound_cipher(chk, events, block_budget):
 
 def validate_all(chk, groups, block_budget, label):
     """groups: list of (label, events).  One TLC run over the concatenation."""
-    allev, spans = [], []
-    for lab, evs in groups:
+    allev, spans, scripts = [], [], []      # scripts[k] = driver lines of the k-th behaviour (k-th reset event) of the concatenation
+    for lab, evs, behs in groups:
         spans.append((len(allev) + 1, lab))
         allev += evs
+        nres = sum(1 for e in evs if e["op"] == "reset")
+        scripts += (list(behs) + [[]] * nres)[:nres]
     if not allev:
         return None
     blocks = bound_cipher(chk, allev, block_budget)
@@ -343,12 +345,18 @@ def validate_all(chk, groups, block_budget, label):
             chk.nontrivial(["raw", e["dir"], "over" if L > MAXB else "limit" if L >= MAXB - 1 else "small", e["k"] > 0, e["chunk"] > 0])
         elif op == "state":
             chk.nontrivial(["state", e["ca"], e["cb"], e["hc"]])
+    # replay file = the driver script of the failing behaviour (re-runnable: tools/check C14 --replay <file>), preceded by
+    # the recorded events up to the failing one as comments
+    starts = [i + 1 for i, e in enumerate(allev) if e["op"] == "reset"]
     for v in res.get("viol", []):
         lab = next((lb for start, lb in reversed(spans) if start <= v["l"]), "?")
-        v.setdefault("detail", {})
-        if isinstance(v["detail"], dict):
-            v["detail"]["scenario"] = lab
-    vlib.report_trace_violations(chk, res, allev, label=label)
+        k = max([j for j, st in enumerate(starts) if st <= v["l"]] or [0])
+        lines = ["# scenario %s, failing event at trace line %d: %s" % (lab, v["l"], json.dumps(v.get("detail")))]
+        for e in allev[starts[k] - 1: v["l"]][-60:]:
+            lines.append("# recorded: " + json.dumps({kk: vv for kk, vv in e.items() if kk not in ("key", "ct", "pt")}))
+        lines += scripts[k] if k < len(scripts) else []
+        for cl in (v["clause"] if isinstance(v["clause"], list) else [v["clause"]]):
+            chk.report(cl, "%s contract clause %s fails on a recorded execution of real SessionManager sessions (scenario %s)" % (chk.pid, cl, lab), lines, replay_name=cl)
     log("[trace] %s: %d behaviours, %d events, %d reference cipher blocks, %d clause failures, stats %s" % (
         label, nb, len(allev), blocks, len(res.get("viol", [])), json.dumps(res.get("stats"))))
     return res
@@ -361,34 +369,47 @@ def looks_broken(events):
     return sends != got or any(e["op"] == "send" and not e["ok"] and e["n"] <= MAXB for e in events)
 
 
+def replay(chk, path):
+    """re-run the driver script of a replay file on the real code and validate the trace (a racy scenario is repeated up to 3 times)"""
+    cmds = [x.rstrip("\n") for x in open(path) if x.strip() and not x.startswith("#")]
+    if not cmds or not cmds[0].startswith("reset"):
+        raise MachineryError("replay file has no script (must start with reset): %s" % path)
+    groups = []
+    for attempt in range(3 if any(c.startswith("csend") for c in cmds) else 1):
+        evs = run_driver(chk, [cmds], "replay-%d" % attempt)
+        groups.append(("replay-%d" % attempt, evs, [cmds]))
+        if looks_broken(evs):
+            break
+    validate_all(chk, groups, 400, "replay")
+
+
 def run(chk):
     thorough = chk.tier == "thorough"
     model_check(chk)
     r, hists = vlib.dump_hists("Transport", "MC_Transport.cfg", workers=4, timeout=900, heap="2g")
     groups = []
-    ms = model_scripts(chk, hists, 2500 if thorough else 220, 1500 if thorough else 100)
+    ms = model_scripts(chk, hists, 2000 if thorough else 220, 1200 if thorough else 100)
     log("[gen] %d TLC state-cover paths, %d replayed" % (len(hists), len(ms)))
-    groups.append(("tlc-state-cover", run_driver(chk, ms, "tlc-state-cover")))
-    groups.append(("boundary-sizes", run_driver(chk, boundary_scripts(), "boundary-sizes")))
-    groups.append(("bursts", run_driver(chk, burst_scripts(), "bursts")))
-    groups.append(("oversized-prefix", run_driver(chk, oversized_scripts(False), "oversized-prefix")))
-    groups.append(("oversized-prefix-huge", run_driver(chk, oversized_scripts(True), "oversized-prefix-huge")))
-    groups.append(("timing", run_driver(chk, timing_scripts(), "timing")))
-    groups.append(("random", run_driver(chk, random_scripts(chk.rng, 1500 if thorough else 120), "random")))
+    for lab, sc in (("tlc-state-cover", ms), ("boundary-sizes", boundary_scripts()), ("bursts", burst_scripts()), ("oversized-prefix", oversized_scripts(False)),
+                    ("oversized-prefix-huge", oversized_scripts(True)), ("timing", timing_scripts()), ("random", random_scripts(chk.rng, 1500 if thorough else 120))):
+        groups.append((lab, run_driver(chk, sc, lab), sc))
     # concurrent senders on one session: a race, so the scenario is repeated until it shows a problem (at most 3 / 6 times)
     for attempt in range(6 if thorough else 3):
         evs = run_driver(chk, concurrent_script(attempt), "concurrent-senders-%d" % attempt)
-        groups.append(("concurrent-senders-%d" % attempt, evs))
+        groups.append(("concurrent-senders-%d" % attempt, evs, concurrent_script(attempt)))
         if looks_broken(evs):
             break
-    validate_all(chk, groups, 4000 if thorough else 320, "real-sessions")
+    validate_all(chk, groups, 2000 if thorough else 320, "real-sessions")
     if thorough:
         # the same driver under ASan + UBSan (the sanitizer is a monitor: its report is the violation)
         g2 = []
         for lab, sc in (("boundary-sizes", boundary_scripts()), ("bursts", burst_scripts()), ("oversized-prefix", oversized_scripts(False) + oversized_scripts(True)),
                         ("random", random_scripts(chk.rng, 300)), ("concurrent-senders", concurrent_script(0))):
-            g2.append((lab + "-asan", run_driver(chk, sc, lab, flavour="asan", timeout=1500)))
+            g2.append((lab + "-asan", run_driver(chk, sc, lab, flavour="asan", timeout=1500), sc))
         validate_all(chk, g2, 600, "real-sessions-asan")
         chk.assumptions.append("thorough tier: the same scripts also run with the driver built -fsanitize=address,undefined (monitor; a report is clause C14.sanitizer/<kind>)")
+    chk.sample({"scenario": "tlc-state-cover", "tlc_action_path": hists[len(hists) // 2], "driver_script": hist_to_script(hists[len(hists) // 2], len(hists) // 2)[0]})
+    chk.sample({"scenario": "oversized-prefix-huge", "driver_script": oversized_scripts(True)[1],
+                "recorded": [{k: v for k, v in e.items() if k not in ("key", "ct", "pt")} for e in groups[4][1][11:22]]})
     chk.sample({"scenario": "boundary-sizes", "first_events": [{k: v for k, v in e.items() if k not in ("key", "ct", "pt")} for e in groups[1][1][:6]]})
     chk.assumptions += ASSUME
